@@ -101,7 +101,7 @@ def run(pid, spec, res, driver_ok, thorough, seed):
     if pid in dr.get("properties", []):
         deepen = True
     if thorough:
-        count, budget = 1500, 420
+        count, budget = 4000, 1200
     else:
         count, budget = 220, 45
     if deepen:
